@@ -48,6 +48,12 @@ namespace irx {
     std::vector<Dec> decs;
     std::map<const void *, int> site_hits;
     std::set<const void *> undef_sites;
+    // ---- lockset data-race detection between irx threads (worker threads only, while they exist)
+    struct Acc { int64_t off; uint64_t n; int tid; bool write; std::vector<std::pair<int, int64_t>> locks; };
+    std::map<int, std::vector<Acc>> shadow;
+    std::map<int, std::vector<std::pair<int, int64_t>>> tlocks;
+    std::map<int, int> tguard;
+    std::set<int> raced_objs;
     std::unordered_map<unsigned, bool> dcache;
     std::vector<z3::expr> dkeep; // keeps decided conditions alive so that their AST ids stay valid cache keys
     long insts_path = 0;
